@@ -64,6 +64,15 @@ extern "C" void h_sim()
   int auto_run = nondet_int() & 1;
   fix(sim, &m, auto_run);
   ASSUME(WF(sim));
+  /* input classes: the program counter within 16 bytes of the top of the address space is a separate
+     class (instruction fetch running over the top: listed finding), everything else must be clean */
+#if defined(PCVAL) && defined(ADDR_MAX)
+#ifdef PC_AT_TOP
+  ASSUME(PCVAL(sim) > ADDR_MAX - 16u);
+#else
+  ASSUME(PCVAL(sim) <= ADDR_MAX - 16u);
+#endif
+#endif
   Simulate::stop_running = false;
 #ifdef DETERMINISM
   SIMCLASS sim2(&m);
@@ -73,7 +82,14 @@ extern "C" void h_sim()
   int r = sim.run(-1, 1);
   OBL(r == 0 || r == -1, "C15.step: one step returns control (executed, break or illegal instruction)");
   OBL(!g_lm_overflow, "C15.step: a step touches a bounded number of memory cells");
+#ifdef WF_RELAXED
+  OBL(WF_RELAXED(sim), "C15.step: the simulator's representation invariant is preserved (program counter may run at most one instruction past the top of the address space)");
+#endif
   OBL(WF(sim), "C15.step: the simulator's representation invariant is preserved");
+#ifdef ADDR_MAX
+  OBL(g_max_addr <= ADDR_MAX + 1u, "C15.step: no memory access beyond the simulated address space (a multi-byte access may straddle its top by one byte)");
+  OBL(g_max_addr <= ADDR_MAX, "C15.step: every memory access lies inside the simulated address space");
+#endif
 #ifdef DETERMINISM
   for (int i = 0; i < LM; i++) if (i < g_ln) g_lv[i] = g_l0[i];      /* same initial memory */
   int r2 = sim2.run(-1, 1);
